@@ -51,6 +51,7 @@ template<> struct ScalarIO<S> {
 #endif
 
 #include "ops.h"
+#include "ops2.h"
 #include "preds.h"
 #if VQ_GROUPSET >= 100
 #include "bundles.h"
@@ -73,7 +74,7 @@ template<> struct ScalarIO<S> {
 #endif
 
 static bool dispatch(const Case& c, Out<S>& o){
-#define X(name, type) if(c.group==name) return (c.op.size()>1 && (c.op[0]=='P' || c.op[0]=='J') && isdigit(c.op[1])) ? Pred<type>::run(c,o) : GroupRunner<type>::run(c,o);
+#define X(name, type) if(c.group==name) return (c.op.size()>1 && (c.op[0]=='P' || c.op[0]=='J' || c.op[0]=='W') && isdigit(c.op[1])) ? Pred<type>::run(c,o) : (GroupRunner<type>::run(c,o) || GroupRunner2<type>::run(c,o));
   VQ_GROUPS
 #undef X
   return false;
